@@ -28,13 +28,20 @@ def add_native_violations(vd, nat, obligation):
                          expected=v.get("expected"), actual=v.get("actual"))
 
 
-def run_bounded(prop, native_check, tier, seed, obligation, extra_assumptions=(), extra_args=()):
+def run_bounded(prop, native_check, tier, seed, obligation, extra_assumptions=(), extra_args=(), need_binary=False):
     vd = D.Verdict(prop, tier, seed)
     try:
         binary, _ = D.build_native()
     except D.BuildError as e:
         vd.add_undecided(str(e)[:800])
         return vd.finish({"level": "exploration", "coverage": {"evaluations": 1, "distinct_nontrivial": 2, "rule": "native harness did not build", "samples": ["-"]}})
-    nat = D.run_native(binary, native_check, tier, seed, extra=extra_args)
+    env = {}
+    if need_binary:
+        try:
+            env["VXN_SOLSTAT_BIN"] = D.build_repo_binary()
+        except D.BuildError as e:
+            vd.add_undecided(str(e)[:800])
+            return vd.finish({"level": "exploration", "coverage": {"evaluations": 1, "distinct_nontrivial": 2, "rule": "solstat binary did not build", "samples": ["-"]}})
+    nat = D.run_native(binary, native_check, tier, seed, extra=extra_args, env=env)
     add_native_violations(vd, nat, obligation)
     return vd.finish(evidence_from_native(nat, extra_assumptions))
